@@ -191,7 +191,7 @@ def prepN (files : Files) (J : PJ) (inl : List Name) : Node → Cache → Res (L
         match files.find name with
         | none =>
           -- TemplateNotFound while preparing: the fallback is inlined; without one the include
-          -- is left for run time (fix 5be244b)
+          -- is left for run time (fix 13c503f)
           if hasFb then prepL files J inl fb c
           else (prepL files J inl fb c).bind fun r => .ok ([.include (.static h) cls hasFb r.1 pos], r.2)
         | some f =>
@@ -406,9 +406,9 @@ def renderN (inl : Mode) (files : Files) (J : RJ) (rng : Rng) : Node → St → 
     | some (idx, mb) =>
       -- the matched element is consumed: its content is evaluated (buffered) under the match
       -- templates up to this one and kept for `select`, then the template body replaces it, open
-      -- to the later ones
+      -- to the later ones of the current window (`start=idx+1, end=end`, genshi 20a64fc)
       (renderL inl files J ⟨rng.lo, some (idx + 1), false⟩ body st).bind fun r =>
-        (J ⟨idx + 1, none, false⟩ mb { r.2 with sel := r.1 :: r.2.sel }).bind fun r' =>
+        (J ⟨idx + 1, rng.hi, false⟩ mb { r.2 with sel := r.1 :: r.2.sel }).bind fun r' =>
           .ok (r'.1, { r'.2 with sel := r'.2.sel.tail })
   | .cond c body, st =>
     (evalCond st c).bind fun b => if b then renderL inl files J rng body st else .ok ([], st)
@@ -437,7 +437,7 @@ def renderN (inl : Mode) (files : Files) (J : RJ) (rng : Rng) : Node → St → 
         match loadT inl files name cls st with
         | .ok (body, st1) => J (.ofKind cls) body st1       -- tmpl.generate(ctxt): the target's own filters
         | .err .notFound =>
-          -- only the load is inside the try (fix e3e02f6); the fallback runs through self.filters
+          -- only the load is inside the try (fix 0ba501f); the fallback runs through self.filters
           if hasFb then renderL inl files J rng.fresh fb st else .err .notFound
         | .err e => .err e
         | .fuel => .fuel
